@@ -78,6 +78,20 @@ add(
     "DESIGN.md section 4, C14",
 )
 
+add(
+    "C08", "exploration",
+    "property-based testing (Hypothesis): validity oracle for indexed matches, brute-force uniqueness oracle, "
+    "differential index vs one-by-one search under adapter permutations, CLI cross-check",
+    "Generated sets of similar anchored adapters (equal/mixed lengths, indels on/off, up to three errors) and reads "
+    "(edited copies, reads shorter than the longest index string, N-containing, lower case): every indexed match is "
+    "re-validated (anchored, inside the read, exact independent distance, within tolerance); when exactly one adapter "
+    "occurs within tolerance the index must report it; for equal lengths/no indels/unambiguous N-free reads the index "
+    "must agree with one-by-one search for every adapter order; the CLI path (AdapterCutter with index) is re-validated "
+    "from --info-file rows.",
+    "Held on everything explored after three repository fixes (F5a-c).",
+    "DESIGN.md section 4, C08",
+)
+
 NOT_APPLICABLE = []  # filled below for every property without a check
 
 ALL_IDS = [f"C{i:02d}" for i in range(1, 21)]
